@@ -2,3 +2,23 @@ struct KeyID { uint64_t _value; };
 struct KeyIDAndFlags { struct KeyID keyID; _Bool orderOnly; _Bool singleUse; };
 VERIF_VEC(vec_keyid, struct KeyID)
 VERIF_VEC(vec_u8, uint8_t)
+/* vector::erase(begin() + i) on a list of at most ND entries: the entries after position i move down by one (written out, no loop) */
+#define ND 4
+static inline void vec_keyid_erase_at(vec_keyid *v, long i) {
+  __CPROVER_assert(i >= 0 && (size_t)i < v->len, "erase: the position is inside the list");
+  if (i <= 0 && v->len > 1) v->ptr[0] = v->ptr[1];
+  if (i <= 1 && v->len > 2) v->ptr[1] = v->ptr[2];
+  if (i <= 2 && v->len > 3) v->ptr[2] = v->ptr[3];
+  v->len = v->len - 1; }
+static inline void vec_u8_erase_at(vec_u8 *v, long i) {
+  __CPROVER_assert(i >= 0 && (size_t)i < v->len, "erase: the position is inside the list");
+  if (i <= 0 && v->len > 1) v->ptr[0] = v->ptr[1];
+  if (i <= 1 && v->len > 2) v->ptr[1] = v->ptr[2];
+  if (i <= 2 && v->len > 3) v->ptr[2] = v->ptr[3];
+  v->len = v->len - 1; }
+/* ghost: the list as it was when cleanSingleUseDependencies was entered */
+uint64_t g_k0[ND]; uint8_t g_f0[ND]; size_t g_n0;
+#define SU0(k) (((g_f0[k] >> 1) & 1) != 0)
+#define KEEP0(k) (((k) < g_n0 && !SU0(k)) ? 1u : 0u)
+/* the number of entries in [a, b) of the old list that are kept */
+#define CNT(a, b) ((0 >= (a) && 0 < (b) ? KEEP0(0) : 0u) + (1 >= (a) && 1 < (b) ? KEEP0(1) : 0u) + (2 >= (a) && 2 < (b) ? KEEP0(2) : 0u) + (3 >= (a) && 3 < (b) ? KEEP0(3) : 0u))
